@@ -643,7 +643,11 @@ func runC15(c *Ctx) {
 	seeds := r.Pick(1, 6)
 	for kind, ps := range points {
 		for _, p := range ps {
-			for _, n := range nths {
+			ns := nths
+			if kind == "bolt" && !r.Thorough() {
+				ns = []int{1, 2, 3, 4, 5, 6, 7, 8, 9, 10, 11, 12, 14, 16}
+			}
+			for _, n := range ns {
 				for sd := 0; sd < seeds; sd++ {
 					cases = append(cases, crashCase{kind: kind, mode: "hook", point: p, nth: n, seed: sd})
 				}
